@@ -272,7 +272,7 @@ func TestC19(t *testing.T) {
 		if err := coeffsCase(); err != nil {
 			rec.Violate("coeffs", err.Error(), Case{Kind: "coeffs"})
 		}
-		rec.Rapid(t, "eval", evid.Pick(40000, 800000), func(t *rapid.T) {
+		rec.Rapid(t, "eval", evid.Pick(150000, 3000000), func(t *rapid.T) {
 			root, label := gen.Root(t)
 			p := gen.Playout(t, root, 16, nil)
 			if p.Half > 100 {
@@ -291,7 +291,7 @@ func TestC19(t *testing.T) {
 				t.Fatalf("%v", err)
 			}
 		})
-		rec.Rapid(t, "vector", evid.Pick(1500, 30000), func(t *rapid.T) {
+		rec.Rapid(t, "vector", evid.Pick(3000, 40000), func(t *rapid.T) {
 			all := fieldNames()
 			var T []string
 			switch gen.Draw(t, 0, 5, "subsetKind") {
